@@ -143,6 +143,9 @@ func primed(cont bool, reg strfmt.Registry) *validate.SpecValidator {
 var usePrimed bool
 var usePrimedKind int
 
+// useSkipSchemata: the validation runs with Options.SkipSchemataResult (the verdict and the messages do not depend on it)
+var useSkipSchemata bool
+
 // interleaved: a rejected document whose default check meets an unresolvable $ref lazily, inside a child validator (the
 // library recovers that panic itself with continue-on-errors). It is validated, unrecorded, before every fifth recorded
 // validation: whatever it leaves behind in the pools is what the recorded validation borrows.
@@ -474,7 +477,12 @@ func driveSpec(args []string) error {
 				continue
 			}
 			_ = os.WriteFile(filepath.Join(*out, "current.txt"), []byte(fmt.Sprintf("%d:%s", di, modeName)), 0o644)
-			for rep := 0; rep < *repeat; rep++ {
+			nrep := *repeat
+			if *raw {
+				nrep++ // one more validation, with the skip-schemata option
+			}
+			for rep := 0; rep < nrep; rep++ {
+				useSkipSchemata = *raw && rep == nrep-1
 				// with repetitions, the last one goes through a validator instance reused across documents
 				// ... and the one before through a validator that has just validated an unrelated accepted document
 				usePrimed = *repeat > 2 && rep == *repeat-2
@@ -483,7 +491,7 @@ func driveSpec(args []string) error {
 					usePrimed, usePrimedKind = true, 1+di%2
 				}
 				res := runSpec(d.text, cont, in, reg, *repeat > 1 && rep == *repeat-1)
-				usePrimed = false
+				usePrimed, useSkipSchemata = false, false
 				if res.out == "loaderr" {
 					break
 				}
@@ -501,7 +509,7 @@ func driveSpec(args []string) error {
 				}
 				ev := enc.M{"ev": "specrun", "doc": di + 1, "mode": mode, "rep": rep, "out": res.out, "errs": res.errs, "warns": res.warns, "retwarns": res.retwarns,
 					"phases": res.phases, "accepted": res.out == "returned" && res.nerr == 0, "circ": res.circ}
-				if *raw && rep == 0 {
+				if *raw && (rep == 0 || rep == nrep-1) {
 					ev["raw"] = rawEnc
 				}
 				input := enc.M{"base": d.base, "edit": d.edit, "mode": mode, "doc": json.RawMessage(d.text), "outcome": res.out}
